@@ -86,10 +86,13 @@ def run_translator():
     if not os.path.isdir(tdir):
         return True, "no translator"
     p = sh(["go", "run", ".", REPO, os.path.join(LEAN, "Yv", "Gen")], cwd=tdir, env=GOENV)
+    out = p.stdout.decode(errors="replace") + p.stderr.decode(errors="replace")
     if p.returncode != 0:
-        return False, "translator failed (fails closed on unknown constructs):\n" + \
-            (p.stdout.decode(errors="replace") + p.stderr.decode(errors="replace"))[-4000:]
-    return True, p.stdout.decode(errors="replace")
+        failed = dict(re.findall(r"FAILED (\w+): (.*)", out))
+        if not failed:
+            failed = {"Resolve": out[-1500:], "Facts": out[-1500:], "Action": out[-1500:]}   # the translator itself did not run
+        return False, failed
+    return True, {}
 
 
 def build_ymodel():
@@ -146,6 +149,8 @@ def audit_sources():
 
 
 TRANSLATOR_ERROR = None
+# which regenerated fragments each proof module imports
+GEN_DEPS = {"Yv.Props.C04": ["Resolve"], "Yv.Props.C14": ["Facts"], "Yv.Props.C19": ["Facts"], "Yv.Props.C05c": ["Action"]}
 TIER = "quick"
 
 
@@ -154,9 +159,16 @@ def prove(theorems, modules):
     Returns dict(ok, obligations, discharged, detail, axioms)."""
     t = time.time()
     res = {"ok": False, "obligations": len(theorems), "discharged": 0, "detail": "", "axioms": {}}
-    if TRANSLATOR_ERROR is not None:
-        res["detail"] = "translator could not regenerate Gen/*.lean from the current sources: " + TRANSLATOR_ERROR[:1500]
-        return res
+    if TRANSLATOR_ERROR:
+        # only the theorems that import a fragment which could not be regenerated are unproved
+        needs = set()
+        for m in modules:
+            needs |= set(GEN_DEPS.get(m, []))
+        hit = [f for f in TRANSLATOR_ERROR if f in needs]
+        if hit:
+            res["detail"] = "translator could not regenerate Gen/%s.lean from the current sources (fails closed): %s" % (
+                hit[0], str(TRANSLATOR_ERROR[hit[0]])[:1200])
+            return res
     if not theorems:
         res["ok"] = True
         return res
